@@ -42,7 +42,12 @@ class Gen:
                 v = rng.choice([0, 0, 1, 5, -1, 0x100])
                 cond = rng.choice([self.lit(v), f"{self.lit(v)} * 1", f"1 - 1 + {self.lit(v)}"])
                 s, e = self.block(depth + 1)
-                src += [f"@if {cond}"] + s + ["@endif"]
+                if rng.random() < 0.3 and all("\n" not in x and not x.startswith(("@each", "@if", "@endif", "@endeach")) for x in s) and len(s) <= 2:
+                    # the whole conditional on one line
+                    src += [f"@if {cond} " + " ".join(s) + " @endif"]
+                    self.feat["if_one_line"] = self.feat.get("if_one_line", 0) + 1
+                else:
+                    src += [f"@if {cond}"] + s + ["@endif"]
                 if v != 0:
                     exp += e
                     self.feat["if_true"] += 1
